@@ -154,10 +154,28 @@ def rule_split(ctx):
     okm = m is not None and norm(m.value).replace(" ", "") == "list(filesets[0].match(filesets[1],start=start,end=end,max_interval=max_interval))"
     ctx.ob("Collocator.collocate_filesets.match", okm, "%s" % (norm(m.value) if m else None), "matches = primary.match(secondary, start, end, max_interval) over the requested period",
            node=m or f.node, func=f)
-    ch = A.get("matches_chunks", [None])[0]
-    pr = [norm(s.value) for s in A.get("processes", [])]
-    okc = ch is not None and norm(ch.value).replace(" ", "") == "np.array_split(np.array(matches,dtype=object),processes)" and "min(processes, len(matches))" in pr
-    ctx.ob("Collocator.collocate_filesets.chunks", okc, "%s; processes: %s" % (norm(ch.value) if ch else None, pr), "np.array_split(all matches, min(processes, len(matches)))", node=ch or f.node, func=f)
+    splits = calls_in(f.node, "array_split")
+    if len(splits) != 1 or len(splits[0].args) < 2:
+        raise AnalysisError("collocate_filesets: the array_split of the matches was not found")
+    sp_ = splits[0]
+    ch = enclosing_stmt(sp_)
+    pparam = [p_ for p_ in f.params if p_ == "processes"]
+    if not pparam:
+        raise AnalysisError("collocate_filesets: parameter `processes` not found")
+    mname = m.targets[0].id if m is not None else "matches"
+    pr = []
+    for asm, wantp in (({"processes is None": True, "processes is not None": False}, ("min(1, len(%s))" % mname, "min(len(%s), 1)" % mname)),
+                       ({"processes is None": False, "processes is not None": True}, ("min(processes, len(%s))" % mname, "min(len(%s), processes)" % mname))):
+        got = norm(flow.resolve_under(sp_.args[1], asm, at=sp_, stop=(mname,)))
+        pr.append(str(got))
+    okc = str(norm(flow.resolve(sp_.args[0], at=sp_, stop=(mname,)))).replace(" ", "") in ("np.array(%s,dtype=object)" % mname,) \
+        and pr[0].replace(" ", "") in ("min(1,len(%s))" % mname, "min(len(%s),1)" % mname) \
+        and pr[1].replace(" ", "") in ("min(processes,len(%s))" % mname, "min(len(%s),processes)" % mname)
+    if not okc and not any("len(%s)" % mname in x for x in pr) and any("min" in x for x in pr):
+        raise AnalysisError("collocate_filesets: number of chunks %s not understood" % pr)
+    chv = sp_
+    pr = {"processes is None": pr[0], "processes given": pr[1]}
+    ctx.ob("Collocator.collocate_filesets.chunks", okc, "%s; processes: %s" % (norm(chv), pr), "np.array_split(all matches, min(processes, len(matches)))", node=ch or f.node, func=f)
     pl = A.get("process_list", [None])[0]
     okp = False
     if pl is not None and isinstance(pl.value, ast.ListComp):
@@ -211,31 +229,61 @@ def rule_naming(ctx):
     lst = [st for st in f.body if isinstance(st, ast.If) and norm(st.test) == "isinstance(collocations, list)" and norm(st.body[0]) == "collocations = concat_collocations(collocations)"]
     ctx.ob("Collocator._save_and_return.write", okw and bool(lst), "write: %s; bundles concatenated first: %s" % (norm(wr[0]) if wr else None, bool(lst)),
            "a bundle is concatenated with concat_collocations and written under that name", node=wr[0] if wr else f.node, func=f)
+    from ..flow import const_str
+
+    def span(fl, e, at, pname, depth=0):
+        """(aggregate, container text, key string) of pd.Timestamp(<container>[..][<primary>/time][.values].min|max().item(0)), names looked through"""
+        def peel(x):
+            n_ = 0
+            while isinstance(x, ast.Name) and n_ < 4:
+                r_ = fl.single_def_value(x.id, at)
+                if r_ is None:
+                    break
+                x, n_ = r_[0], n_ + 1
+            return x
+        e = peel(e)
+        while isinstance(e, ast.Call) and dotted(e.func) == "str" and len(e.args) == 1:
+            e = peel(e.args[0])
+        if not (isinstance(e, ast.Call) and (dotted(e.func) or "").endswith("Timestamp") and len(e.args) == 1):
+            return None
+        it = peel(e.args[0])
+        if isinstance(it, ast.Subscript) and isinstance(it.value, ast.Attribute) and it.value.attr == "attrs" and norm(it.value.value) != "self":
+            # recognised wrong form: the span is copied from the attributes of one of the parts instead of the times held
+            return "copied", str(norm(it)), None
+        if not (isinstance(it, ast.Call) and isinstance(it.func, ast.Attribute) and it.func.attr == "item" and [norm(a_) for a_ in it.args] == ["0"]):
+            return None
+        ag = peel(it.func.value)
+        if not (isinstance(ag, ast.Call) and isinstance(ag.func, ast.Attribute) and ag.func.attr in ("min", "max") and not ag.args and not ag.keywords):
+            return None
+        base = peel(ag.func.value)
+        if isinstance(base, ast.Attribute) and base.attr == "values":
+            base = peel(base.value)
+        if not isinstance(base, ast.Subscript):
+            return None
+        key = const_str(peel(base.slice), {pname: "<P>"})
+        cont = base.value
+        return ag.func.attr, str(norm(cont)), key
     g = ctx.func(COL, "Collocator._create_return")
+    gflow = Flow(g)
     asg = {}
     for st in walk_no_nested(g.node):
         if isinstance(st, ast.Assign) and isinstance(st.targets[0], ast.Name) and st.targets[0].id in ("start", "end"):
-            asg[st.targets[0].id] = norm(st.value).replace(" ", "").replace('"', "'")
-    okt = asg.get("start") == "pd.Timestamp(output[primary_name+'/time'].values.min().item(0))" and asg.get("end") == "pd.Timestamp(output[primary_name+'/time'].values.max().item(0))"
+            asg[st.targets[0].id] = span(gflow, st.value, st, "primary_name")
+    if set(asg) != {"start", "end"} or None in asg.values():
+        raise AnalysisError("_create_return: start / end of the time span not of the form pd.Timestamp(<times>.min()/max().item(0)): %s" % asg)
+    okt = asg["start"][0] == "min" and asg["end"][0] == "max" and asg["start"][1:] == asg["end"][1:] == ("output", "<P>/time")
     h = ctx.func(COL, "concat_collocations")
     hflow = Flow(h)
-    import re as _re
     asg2 = {}
     for st in hflow.stmts:
         if isinstance(st, ast.Assign) and isinstance(st.targets[0], ast.Attribute) and st.targets[0].attr == "attrs" and isinstance(st.value, ast.Dict):
             for k_, v_ in zip(st.value.keys, st.value.values):
                 if isinstance(k_, ast.Constant) and k_.value in ("start_time", "end_time"):
-                    vv = v_
-                    while isinstance(vv, ast.Call) and dotted(vv.func) == "str" and len(vv.args) == 1:
-                        vv = vv.args[0]
-                    if isinstance(vv, ast.Name):
-                        vv = hflow.resolve(vv, at=st, depth=1, stop=("primary",))
-                    asg2[{"start_time": "start", "end_time": "end"}[k_.value]] = str(norm(vv)).replace(" ", "").replace('"', "'")
-    if set(asg2) != {"start", "end"}:
-        raise AnalysisError("concat_collocations: start_time / end_time attributes of the merged dataset not found")
-    pat = r"pd\.Timestamp\((\w+)\[primary\]\[primary\+'/time'\]\.%s\(\)\.item\(0\)\)"
-    m1, m2 = _re.fullmatch(pat % "min", asg2["start"]), _re.fullmatch(pat % "max", asg2["end"])
-    okt2 = bool(m1) and bool(m2) and m1.group(1) == m2.group(1)
+                    asg2[{"start_time": "start", "end_time": "end"}[k_.value]] = span(hflow, v_, st, "primary")
+    if set(asg2) != {"start", "end"} or None in asg2.values():
+        raise AnalysisError("concat_collocations: start_time / end_time attributes of the merged dataset not of the form pd.Timestamp(<times>.min()/max().item(0)): %s" % asg2)
+    okt2 = asg2["start"][0] == "min" and asg2["end"][0] == "max" and asg2["start"][1:] == asg2["end"][1:] and asg2["start"][2] == "<P>/time" \
+        and asg2["start"][1].endswith("[primary]")
     ctx.ob("collocations.time_span", okt and okt2, "_create_return: %s; concat: %s" % (asg, asg2), "start_time / end_time = min / max of the primary times of the collocations held", node=g.node, func=g)
 
 
